@@ -120,6 +120,8 @@ def plan(tier: str, seed: int) -> list[dict]:
     for s in range(0, nh, per):
         units.append({"kind": "hist", "start": s, "n": per, "seed": seed})
     units.append({"kind": "exhaust", "tier": tier})
+    for i in range(8 if tier == "quick" else 60):
+        units.append({"kind": "cli", "idx": i, "seed": seed})
     return units
 
 
@@ -360,9 +362,75 @@ def unit_exhaust(acc: Acc, unit: dict) -> None:
     shutil.rmtree(root.parent, ignore_errors=True)
 
 
+def unit_cli(acc: Acc, unit: dict) -> None:
+    """Allocations as a user causes them: `db create` / `db reindex` over pages whose new notes carry
+    back-dated YYYY-MM-DD creation dates in non-monotonic order, one process-like command at a time."""
+    from zmon import db
+    from zmon.gen import history as hg
+    from zmon.mon.clock import frozen
+
+    rng = rng_for(ID, unit["seed"], f"cli{unit['idx']}")
+    root = harness.fresh_dir("c07cli") / "org"
+    root.mkdir()
+    days = [dt.date(2024, 3, 10) + dt.timedelta(days=rng.randint(0, 4)) for _ in range(3)]
+    today = dt.date(2031, 3, 14)
+    n = 0
+
+    def new_lines(k):
+        nonlocal n
+        out = []
+        for _ in range(k):
+            n += 1
+            d = rng.choice(days + [None])
+            out.append(rng.choice(["- ", "o ", "o P1 "]) + (d.isoformat() + " " if d else "") + f"note number {n}")
+        return out
+
+    pages = {"a.zo": ["# A", ""] + new_lines(rng.randint(2, 5)), "sub/b.zo": ["# B", ""] + new_lines(rng.randint(2, 5))}
+    for rel, lines in pages.items():
+        f = root / rel
+        f.parent.mkdir(parents=True, exist_ok=True)
+        f.write_text("\n".join(lines) + "\n")
+    case = {"unit": "cli", "idx": unit["idx"], "seed": unit["seed"]}
+    acc.evaluations += 1
+    acc.judged += 1
+    with frozen(today):
+        cmds = [("db", "create")] + [("db", "reindex")] * rng.randint(2, 4)
+        for ci, cmd in enumerate(cmds):
+            if ci > 0:
+                rel = rng.choice(sorted(pages))
+                f = root / rel
+                f.write_text(f.read_text() + "\n".join(new_lines(rng.randint(1, 3))) + "\n")
+            r = db.cli(root, *cmd)
+            if r.rc != 0:
+                acc.violation(f"`{' '.join(cmd)}` failed rc={r.rc} {r.err[-200:]}", case, cls="command fails while allocating ZIDs")
+                return
+            zids = []
+            for f in hg.zo_files(root):
+                lines, items = hg.scan(f.read_text())
+                for s_, _e in items:
+                    z = hg.first_line_parts(lines[s_])[2]
+                    if z is None:
+                        acc.violation(f"note without ZID after `{' '.join(cmd)}`: {lines[s_]!r}", case, cls="note without ZID after indexing")
+                    else:
+                        zids.append(z)
+            dup = sorted({z for z in zids if zids.count(z) > 1})
+            if dup:
+                acc.violation(f"after command #{ci + 1} (`{' '.join(cmd)}`) the ZIDs {dup} are carried by two different notes", case, cls="the same ZID allocated to two notes (through db create / reindex)")
+                return
+            bad = [z for z in zids if not ZID_FORM.match(z)]
+            if bad:
+                acc.violation(f"malformed ZIDs in files: {bad}", case, cls="malformed allocation")
+    acc.sig(("cli", len(cmds), len(set(days))))
+    shutil.rmtree(root.parent, ignore_errors=True)
+
+
 def run_unit(unit: dict) -> dict:
     acc = Acc()
     k = unit["kind"]
+    if k == "cli":
+        unit_cli(acc, unit)
+        acc.merge_counts(contracts.take_counts())
+        return acc.result()
     if k == "chain":
         unit_chain(acc)
     elif k == "lex":
@@ -381,6 +449,8 @@ def replay(case: dict) -> dict:
         unit_chain(acc)
     elif case.get("unit") == "exhaust":
         unit_exhaust(acc, {"tier": "quick" if case.get("start") != "00" else "thorough"})
+    elif case.get("unit") == "cli":
+        unit_cli(acc, case)
     elif "idx" in case:
         unit_hist(acc, {"start": case["idx"], "n": 1, "seed": case["seed"]})
     elif "zid" in case:
